@@ -806,6 +806,34 @@ fn checksum_one(ctx: &Ctx, seq: Vec<(&'static str, &'static [u8])>) {
                 other => ctx.violate("C12.purl", "a PURL can be built with a well-formed checksum", inp(), format!("{:?}", other.map(|a| a.map(|b| b.map(|p| Obs::of(&p))))), "Ok".into()),
             }
         }
+        // every way of reading the entries gives the same entries: iter(), &c as IntoIterator, algorithms(), get_raw, get_value (raw,
+        // deref, decode), each entry once, whatever the order
+        {
+            let r = guarded(|| {
+                let mut bad: Vec<String> = vec![];
+                let want_pairs: BTreeMap<String, String> = model.iter().map(|(k, v)| (k.clone(), hex::encode(v))).collect();
+                let it: BTreeMap<String, String> = c.iter().map(|(a, v)| (a.to_owned(), v.raw().to_owned())).collect();
+                let it2: BTreeMap<String, String> = (&c).into_iter().map(|(a, v)| (a.to_owned(), (*v).to_owned())).collect();
+                if it != want_pairs || c.iter().count() != want_pairs.len() { bad.push(format!("iter(): {it:?}")); }
+                if it2 != want_pairs { bad.push(format!("&c into_iter: {it2:?}")); }
+                let algs: BTreeSet<String> = c.algorithms().map(str::to_owned).collect();
+                if algs != want_pairs.keys().cloned().collect::<BTreeSet<_>>() || c.algorithms().count() != want_pairs.len() { bad.push(format!("algorithms(): {algs:?}")); }
+                for (a, h) in &want_pairs {
+                    if c.get_raw(a) != Some(h.as_str()) { bad.push(format!("get_raw({a:?}) = {:?}", c.get_raw(a))); }
+                    match c.get_value(a) {
+                        Some(v) => { if v.raw() != h || &*v != h.as_str() || v.decode::<Vec<u8>>().ok().as_deref() != Some(model[a].as_slice()) { bad.push(format!("get_value({a:?})")); } },
+                        None => bad.push(format!("get_value({a:?}) = None")),
+                    }
+                }
+                if c.get_raw("no-such-algorithm").is_some() || c.get_value("no-such-algorithm").is_some() { bad.push("an absent algorithm is found".into()); }
+                bad
+            });
+            match r {
+                Ok(bad) if bad.is_empty() => {},
+                Ok(bad) => ctx.violate("C12.get", "decoding an entry returns exactly the inserted bytes", inp(), format!("{bad:?}"), "every accessor agrees with the inserted entries".into()),
+                Err(p) => ctx.violate("C06.panic", "Checksum operations never panic", inp(), p, "no panic".into()),
+            }
+        }
         // remove
         let mut c2 = c.clone();
         if let Some((a, _)) = seq.first() { c2.remove(&refimpl::lower(a)); if c2.get_raw(&refimpl::lower(a)).is_some() { ctx.violate("C12.remove", "remove removes", inp(), "still present".into(), "absent".into()); } }
